@@ -58,6 +58,10 @@ def Out.isSat : Out → Bool
   | .sat _ _ _ => true
   | _ => false
 
+def Out.vals : Out → Option Asg
+  | .sat τ _ _ => some τ
+  | _ => none
+
 def Out.isUnsat : Out → Bool
   | .unsatArc => true
   | .unsatSearch _ _ => true
